@@ -154,7 +154,92 @@ def run_get(case):
     return None, line
 
 
+def entity_move_case(case):
+    """a whole C-MOVE over loopback TCP with three real entities: the requester, the move provider (which opens its own
+    association to the destination and stores there) and the destination.  Oracle: the destination's handler is handed
+    every instance the provider's application supplied, once and in order, with its content; after k sub-operations the
+    progress report says k performed and n - k remaining; exactly one final response ends the operation."""
+    import threading
+    import pydicom
+    from pynetdicom2 import applicationentity as aem, sopclass as sc, statuses
+    n, size = case['n'], case['size']
+    CT = '1.2.840.10008.5.1.4.1.1.2'
+    received = []
+
+    class Dest(aem.AE):
+        def on_receive_store(self, context, ds_file):
+            d = pydicom.dcmread(ds_file, force=True)
+            received.append((str(d.SOPInstanceUID), len(d.PatientComments), str(d.PatientComments)[:1]))
+            return statuses.SUCCESS
+    dest = Dest('DEST', 0)
+    dest.add_scp(sc.storage_scp) if False else None
+    dest.supported_scp.update({CT: sc.storage_scp})
+    dest.update_context_def_list([CT], True)
+    dport = dest.server_address[1]
+
+    class Mover(aem.AE):
+        def on_receive_move(self, context, ds, destination):
+            def gen():
+                for j in range(n):
+                    d = pydicom.Dataset()
+                    d.SOPClassUID = CT
+                    d.SOPInstanceUID = '1.2.826.0.1.3680043.9.%d' % j
+                    d.PatientID = 'M%d' % j
+                    d.PatientComments = chr(65 + j % 26) * size
+                    yield d
+            return {'aet': 'DEST', 'address': '127.0.0.1', 'port': dport}, n, gen()
+    mover = Mover('MOVER', 0)
+    mover.add_scp(sc.qr_move_scp)
+    mover.add_scu(sc.storage_scu, [CT])
+    box = {}
+
+    def body():
+        try:
+            cli = aem.ClientAE('CLI').add_scu(sc.qr_move_scu)
+            q = pydicom.Dataset(); q.PatientID = '*'; q.QueryRetrieveLevel = 'PATIENT'
+            out = []
+            with cli.request_association({'aet': 'MOVER', 'address': '127.0.0.1', 'port': mover.server_address[1]}) as assoc:
+                for status, rsp in assoc.get_scu(sc.PATIENT_ROOT_MOVE_SOP_CLASS)(q, 'DEST', 1):
+                    out.append((int(status), rsp.num_of_completed_sub_ops, rsp.num_of_remaining_sub_ops,
+                                rsp.num_of_failed_sub_ops, rsp.num_of_warning_sub_ops))
+            box['out'] = out
+        except BaseException as e:  # pylint: disable=broad-except
+            box['exc'] = e
+    with dest, mover:
+        th = threading.Thread(target=body, daemon=True)
+        th.start()
+        th.join(case.get('limit', 90))
+        if th.is_alive():
+            return 'the C-MOVE of %d instances did not finish within %d s (%d had reached the destination)' % (n, case.get('limit', 90), len(received))
+    if 'exc' in box:
+        return 'the C-MOVE of %d instances raised %r at the requester (%d had reached the destination)' % (n, box['exc'], len(received))
+    want = [('1.2.826.0.1.3680043.9.%d' % j, size, chr(65 + j % 26)) for j in range(n)]
+    if received != want:
+        k = next((i for i, (a, b) in enumerate(zip(received, want)) if a != b), min(len(received), len(want)))
+        return ('the destination was handed %d instances, the application supplied %d; first difference at #%d: %r / %r'
+                % (len(received), n, k, received[k] if k < len(received) else None, want[k] if k < len(want) else None))
+    out = box['out']
+    pend, fin = out[:-1], out[-1:]
+    if [o[0] for o in pend] != [0xFF00] * n or not fin or fin[0][0] in (0xFF00, 0xFF01):
+        return '%d pending responses and final %r for %d sub-operations' % (len(pend), fin, n)
+    for k, o in enumerate(pend, 1):
+        if (o[1], o[2]) != (k, n - k):
+            return 'progress after %d of %d sub-operations: %d performed, %d remaining' % (k, n, o[1], o[2])
+    if (fin[0][1], fin[0][2], fin[0][3], fin[0][4]) != (n, 0, 0, 0):
+        return 'final response counts %r for %d successful sub-operations' % (fin[0][1:], n)
+    return None
+
+
+def entity_job(case):
+    try:
+        return entity_move_case(case)
+    except BaseException as e:  # pylint: disable=broad-except
+        return 'harness:' + common.describe_exc(e)
+
+
 def replay(case):
+    if case.get('entity_move'):
+        return common.bounded_map(entity_job, [case], 1, 150)[0]
     if case.get('default_hook'):
         return run_move_default(case)
     v, _ = (run_move if case['kind'] == 'move' else run_get)(case)
@@ -231,4 +316,13 @@ def run(chk):
         chk.count('move:default-hook')
         if r:
             chk.violation('C19:move-default-hook', r, dc)
+    # a whole C-MOVE over loopback TCP: requester, move provider, destination - three real entities
+    em = {'entity_move': True, 'n': 150 if tier == 'quick' else 600, 'size': 20000}
+    v = common.bounded_map(entity_job, [em], 1, 150)[0]
+    if v and v.startswith('harness:'):
+        common.raise_for(v[len('harness:'):])
+    chk.case(repr(em), True, {'three entities over loopback': True, 'instances': em['n']})
+    chk.count('entity-move')
+    if v and not (common.timing_verdict(v) and not all(common.bounded_map(entity_job, [em, em], 2, 150))):
+        chk.violation('C19:entity-move', v, em)
     chk.lean(['Dicom.Props.C19'])
